@@ -1,5 +1,6 @@
 import difflib
 import re
+from copy import copy
 from dataclasses import dataclass
 from typing import (
     TYPE_CHECKING,
@@ -143,12 +144,18 @@ class SlotRef:
         # Any `{% block %}` tags in the slot's default content must be resolved against the blocks of the
         # template that defined the slot.
         self._render_ctx_layer = context.render_context.dicts[-1]
+        # And the fill adds its own variables (slot data, variables captured by the `{% fill %}` tag) to this same
+        # Context object. The slot's default content is rendered as if the slot tag was not there, so it must
+        # see only the layers that were there when we came across the slot.
+        self._context_layers = list(context.dicts)
 
     # Render the slot when the template coerces SlotRef to string
     def __str__(self) -> str:
-        with self._context.update(self._component_keys):
-            with self._context.render_context.push(self._render_ctx_layer):
-                return mark_safe(self._slot.nodelist.render(self._context))
+        context = copy(self._context)
+        context.dicts = list(self._context_layers)
+        with context.update(self._component_keys):
+            with context.render_context.push(self._render_ctx_layer):
+                return mark_safe(self._slot.nodelist.render(context))
 
 
 class SlotIsFilled(dict):
